@@ -165,8 +165,93 @@ func ruleERRFLOW(c *Ctx) {
 						}
 					}
 					walk(errv, 0)
-					if reachesReturn {
-						c.Ok(rule, key, call.Pos(), "the error of %s reaches a return of %s", calleeName(g), f.Name())
+					// check-first: no other result of the call is used before the error was found
+					// to be nil (a result computed under a cancelled context is not an answer)
+					early := token.NoPos
+					if _, isTup := call.Type().(*types.Tuple); isTup && call.Referrers() != nil {
+						for _, r := range *call.Referrers() {
+							ex, ok := r.(*ssa.Extract)
+							if !ok || ssa.Value(ex) == errv || ex.Referrers() == nil {
+								continue
+							}
+							for _, use := range *ex.Referrers() {
+								if _, isDbg := use.(*ssa.DebugRef); isDbg {
+									continue
+								}
+								if ret, isRet := use.(*ssa.Return); isRet {
+									together := false
+									for _, res := range ret.Results {
+										if res == errv {
+											together = true
+										}
+									}
+									if together {
+										continue
+									}
+								}
+								checked := false
+								ub := use.Block()
+								if phi, isPhi := use.(*ssa.Phi); isPhi {
+									// the use happens on the incoming edge
+									for i, e := range phi.Edges {
+										if e == ssa.Value(ex) {
+											ub = phi.Block().Preds[i]
+										}
+									}
+								}
+								for _, gc := range flattenConds(governing(ub)) {
+									bo, ok := gc.V.(*ssa.BinOp)
+									if !ok {
+										continue
+									}
+									isErrNil := (bo.X == errv && vpath(bo.Y) == "nil") || (bo.Y == errv && vpath(bo.X) == "nil")
+									if isErrNil && ((bo.Op == token.NEQ && !gc.Pol) || (bo.Op == token.EQL && gc.Pol)) {
+										checked = true
+									}
+								}
+								if !checked {
+									// harmless if every return reachable from here hands the error back
+									// (the caller then ignores the other results), or is itself behind
+									// the nil test
+									escapes := false
+									for _, rb := range f.Blocks {
+										ret, isRet := rb.Instrs[len(rb.Instrs)-1].(*ssa.Return)
+										if !isRet || !reachesWithout(ub, rb, nil) {
+											continue
+										}
+										carries := false
+										for _, res := range ret.Results {
+											if res == errv || seen[res] {
+												carries = true
+											}
+										}
+										behind := false
+										for _, gc := range flattenConds(governing(rb)) {
+											if bo, ok := gc.V.(*ssa.BinOp); ok {
+												isErrNil := (bo.X == errv && vpath(bo.Y) == "nil") || (bo.Y == errv && vpath(bo.X) == "nil")
+												if isErrNil && ((bo.Op == token.NEQ && !gc.Pol) || (bo.Op == token.EQL && gc.Pol)) {
+													behind = true
+												}
+											}
+										}
+										if !carries && !behind {
+											escapes = true
+										}
+									}
+									if escapes && early == token.NoPos {
+										early = use.Pos()
+										if early == token.NoPos {
+											early = call.Pos()
+										}
+									}
+								}
+							}
+						}
+					}
+					if reachesReturn && early != token.NoPos {
+						c.Bad(rule, key, early, "a result of %s is used before its error (it can be ctx.Err()) was found to be nil: after a cancellation the caller acts on an answer that was never computed and the error can be skipped", calleeName(g))
+					} else if reachesReturn {
+						c.Ok(rule, key, call.Pos(), "the error of %s reaches a return of %s, and no other result is used before the error was found to be nil", calleeName(g), f.Name())
 					} else {
 						c.Bad(rule, key, call.Pos(), "the error returned by %s (it can be ctx.Err()) never reaches a return of %s: a cancellation is swallowed and the parse continues on a wrong answer", calleeName(g), f.Name())
 					}
@@ -406,5 +491,80 @@ func ruleHANDLERID(c *Ctx) {
 	}
 	if n < 2 {
 		c.add(rule, "count:", token.NoPos, CountDropped, true, "only %d ast.Parse wrappers with an error handler found (js, tm confirmed by hand)", n)
+	}
+}
+
+// USE(ctx.Err): a cancelled parse either returns the context's error or behaves exactly like an
+// uncancelled one. So in the parser packages the value of ctx.Err() may only travel to a return;
+// it must not decide anything else (skip events, stop flushing, change recovery): every call of
+// Context.Err has all its uses in returns (possibly through a phi, an interface conversion or a
+// named result).
+func ruleCTXERRUSE(c *Ctx) {
+	const rule = "USE(ctx.Err)"
+	n := 0
+	pkgs := append([]string{}, parserPkgs...)
+	for _, p := range parserPkgs {
+		pkgs = append(pkgs, p+"/ast")
+	}
+	for _, rel := range pkgs {
+		for _, f := range c.SrcFuncs(rel) {
+			ord := map[string]int{}
+			for _, b := range f.Blocks {
+				for _, ins := range b.Instrs {
+					call, ok := ins.(*ssa.Call)
+					if !ok || !call.Call.IsInvoke() || call.Call.Method.Name() != "Err" || !strings.HasSuffix(call.Call.Value.Type().String(), "context.Context") {
+						continue
+					}
+					n++
+					key := ordKey(ord, ssaFuncKey(f)+":ctx.Err")
+					bad := token.NoPos
+					seen := map[ssa.Value]bool{}
+					var walk func(v ssa.Value, d int)
+					walk = func(v ssa.Value, d int) {
+						if seen[v] || d > 8 || v.Referrers() == nil {
+							return
+						}
+						seen[v] = true
+						for _, r := range *v.Referrers() {
+							switch y := r.(type) {
+							case *ssa.Return, *ssa.DebugRef:
+							case *ssa.Phi:
+								walk(y, d+1)
+							case *ssa.MakeInterface:
+								walk(y, d+1)
+							case *ssa.ChangeInterface:
+								walk(y, d+1)
+							case *ssa.Store:
+								if al, ok := y.Addr.(*ssa.Alloc); ok && y.Val == v && al.Referrers() != nil {
+									for _, r2 := range *al.Referrers() {
+										if ld, ok := r2.(*ssa.UnOp); ok && ld.Op == token.MUL {
+											walk(ld, d+1)
+										}
+									}
+								} else if bad == token.NoPos {
+									bad = y.Pos()
+								}
+							default:
+								if bad == token.NoPos {
+									bad = r.Pos()
+									if bad == token.NoPos {
+										bad = call.Pos()
+									}
+								}
+							}
+						}
+					}
+					walk(call, 0)
+					if bad == token.NoPos {
+						c.Ok(rule, key, call.Pos(), "ctx.Err() is only returned")
+					} else {
+						c.Bad(rule, key, bad, "the value of ctx.Err() is used for something else than being returned: once the context is done the parser behaves differently (events, flushing, recovery) without returning the context's error")
+					}
+				}
+			}
+		}
+	}
+	if n < 5 {
+		c.add(rule, "count:", token.NoPos, CountDropped, true, "only %d calls of ctx.Err() found in the parser packages (5 confirmed by hand)", n)
 	}
 }
